@@ -147,7 +147,7 @@ func validTermKeys() []interface{} {
 // Validate checks the DueDate has the required fields.
 func (dd *DueDate) Validate() error {
 	return validation.ValidateStruct(dd,
-		validation.Field(&dd.Date, validation.Required),
+		validation.Field(&dd.Date, validation.Required, cal.DateNotZero()),
 		validation.Field(&dd.Amount, validation.Required, num.NotZero),
 		validation.Field(&dd.Percent),
 		validation.Field(&dd.Currency),
